@@ -6,7 +6,9 @@ use crate::verif::props::gen_out::*;
 use crate::verif::refcodec::app::{self as refapp, Range, ReqHeader};
 use crate::verif::rng::{mix, Rng};
 use crate::verif::runner::{erase, Codec, Outcome, Property, Scenario, Tier, Violation};
-use crate::verif::sout::{self, ConfSel, Dest, Op, Oracle, SeqSel, SoutCase, Step, TimeBase, Who, World};
+use crate::verif::sout::{
+    self, ConfSel, Dest, Op, Oracle, SeqSel, SoutCase, Step, TimeBase, Who, World,
+};
 use std::collections::BTreeMap;
 
 pub struct RepeatScenario;
@@ -19,7 +21,11 @@ pub fn property<C: Codec>() -> Property {
 }
 
 /// a request of a random function the outstation executes
-pub fn gen_executed_request(rng: &mut Rng, points: &[crate::verif::nodes::outstation::PointCfg], to: Dest) -> Op {
+pub fn gen_executed_request(
+    rng: &mut Rng,
+    points: &[crate::verif::nodes::outstation::PointCfg],
+    to: Dest,
+) -> Op {
     let (func, headers): (u8, Vec<ReqHeader>) = match rng.below(16) {
         0 => (
             refapp::FUNC_WRITE,
@@ -52,7 +58,15 @@ pub fn gen_executed_request(rng: &mut Rng, points: &[crate::verif::nodes::outsta
         4 => (refapp::FUNC_OPERATE, gen_controls(rng)),
         5 | 6 => (refapp::FUNC_DIRECT_OPERATE, gen_controls(rng)),
         7 => (refapp::FUNC_DIRECT_OPERATE_NR, gen_controls(rng)),
-        8 => (*rng.pick(&[refapp::FUNC_IMMED_FREEZE, refapp::FUNC_IMMED_FREEZE_NR, refapp::FUNC_FREEZE_CLEAR, refapp::FUNC_FREEZE_CLEAR_NR]), vec![ReqHeader::all(20, 0)]),
+        8 => (
+            *rng.pick(&[
+                refapp::FUNC_IMMED_FREEZE,
+                refapp::FUNC_IMMED_FREEZE_NR,
+                refapp::FUNC_FREEZE_CLEAR,
+                refapp::FUNC_FREEZE_CLEAR_NR,
+            ]),
+            vec![ReqHeader::all(20, 0)],
+        ),
         9 => (
             *rng.pick(&[refapp::FUNC_FREEZE_AT_TIME, refapp::FUNC_FREEZE_AT_TIME_NR]),
             vec![
@@ -69,7 +83,10 @@ pub fn gen_executed_request(rng: &mut Rng, points: &[crate::verif::nodes::outsta
                 ReqHeader::all(20, 0),
             ],
         ),
-        10 => (*rng.pick(&[refapp::FUNC_COLD_RESTART, refapp::FUNC_WARM_RESTART]), vec![]),
+        10 => (
+            *rng.pick(&[refapp::FUNC_COLD_RESTART, refapp::FUNC_WARM_RESTART]),
+            vec![],
+        ),
         11 => {
             let enable = rng.bool();
             match unsol_op(rng, enable) {
@@ -167,7 +184,11 @@ impl Scenario for RepeatScenario {
         let mut clock = 2_000_000u64;
         let mut script = Vec::new();
         if cfg.unsolicited && rng.chance(2, 3) {
-            script.push(Op::Confirm { uns: true, seq: ConfSel::Expected, from: Who::Master });
+            script.push(Op::Confirm {
+                uns: true,
+                seq: ConfSel::Expected,
+                from: Who::Master,
+            });
             if rng.chance(2, 3) {
                 script.push(unsol_op(rng, true));
             }
@@ -179,10 +200,19 @@ impl Scenario for RepeatScenario {
                 0 => {
                     // solicited confirm wait: a READ whose response needs confirmation
                     script.push(Op::Update(gen_update(rng, &cfg.points, &mut clock)));
-                    script.push(read_op(vec![class_header(1, None), class_header(2, None), class_header(3, None), class_header(0, None)]));
+                    script.push(read_op(vec![
+                        class_header(1, None),
+                        class_header(2, None),
+                        class_header(3, None),
+                        class_header(0, None),
+                    ]));
                     // advance into the series
                     for _ in 0..rng.below(3) {
-                        script.push(Op::Confirm { uns: false, seq: ConfSel::Expected, from: Who::Master });
+                        script.push(Op::Confirm {
+                            uns: false,
+                            seq: ConfSel::Expected,
+                            from: Who::Master,
+                        });
                     }
                     // duplicates of the READ while waiting
                     for _ in 0..rng.urange(1, 3) {
@@ -192,7 +222,11 @@ impl Scenario for RepeatScenario {
                         script.push(Op::Repeat);
                     }
                     if rng.bool() {
-                        script.push(Op::Confirm { uns: false, seq: ConfSel::Expected, from: Who::Master });
+                        script.push(Op::Confirm {
+                            uns: false,
+                            seq: ConfSel::Expected,
+                            from: Who::Master,
+                        });
                     }
                     continue;
                 }
@@ -202,32 +236,59 @@ impl Scenario for RepeatScenario {
                     u.event_mode = 1;
                     script.push(Op::Update(u));
                 }
-                2 => script.push(Op::SleepRel { base: TimeBase::ConfirmTimeout, delta_ms: *rng.pick(&[-1i64, 1]), since_last_tx: true }),
+                2 => script.push(Op::SleepRel {
+                    base: TimeBase::ConfirmTimeout,
+                    delta_ms: *rng.pick(&[-1i64, 1]),
+                    since_last_tx: true,
+                }),
                 _ => {}
             }
-            let to = if rng.chance(1, 8) { Dest::Bcast(*rng.pick(&[0xFFFFu16, 0xFFFE, 0xFFFD])) } else { Dest::Own };
+            let to = if rng.chance(1, 8) {
+                Dest::Bcast(*rng.pick(&[0xFFFFu16, 0xFFFE, 0xFFFD]))
+            } else {
+                Dest::Own
+            };
             script.push(gen_executed_request(rng, &cfg.points, to));
             let dups = rng.urange(1, 3);
             for _ in 0..dups {
                 match rng.below(6) {
                     0 => script.push(Op::Update(gen_update(rng, &cfg.points, &mut clock))),
                     1 => script.push(Op::SetAppIin(rng.below(16) as u8)),
-                    2 => script.push(Op::Confirm { uns: rng.bool(), seq: ConfSel::Expected, from: Who::Master }),
+                    2 => script.push(Op::Confirm {
+                        uns: rng.bool(),
+                        seq: ConfSel::Expected,
+                        from: Who::Master,
+                    }),
                     3 => script.push(Op::Sleep(rng.range(1, 900))),
                     _ => {}
                 }
                 script.push(Op::Repeat);
             }
             if rng.chance(1, 4) {
-                script.push(Op::Confirm { uns: true, seq: ConfSel::Expected, from: Who::Master });
+                script.push(Op::Confirm {
+                    uns: true,
+                    seq: ConfSel::Expected,
+                    from: Who::Master,
+                });
             }
             if rng.chance(1, 6) {
-                script.push(Op::SleepRel { base: TimeBase::ConfirmTimeout, delta_ms: 1, since_last_tx: true });
+                script.push(Op::SleepRel {
+                    base: TimeBase::ConfirmTimeout,
+                    delta_ms: 1,
+                    since_last_tx: true,
+                });
             }
         }
         SoutCase {
             cfg,
-            ctrl: if rng.chance(3, 4) { CtrlAnswers::AllSuccess } else { CtrlAnswers::Random { seed: rng.next_u64(), success_eighths: 5 } },
+            ctrl: if rng.chance(3, 4) {
+                CtrlAnswers::AllSuccess
+            } else {
+                CtrlAnswers::Random {
+                    seed: rng.next_u64(),
+                    success_eighths: 5,
+                }
+            },
             chunk: rng.below(5) as u8,
             chunk_seed: rng.next_u64(),
             script,
@@ -302,31 +363,60 @@ impl Oracle for RepeatOracle {
         // confirm-wait bookkeeping from the library's information callbacks
         for (_, cb) in &step.callbacks {
             if let Cb::Info(s) = cb {
-                if s.starts_with("solicited_confirm_timeout") || s.starts_with("solicited_confirm_wait_new_request") {
+                if s.starts_with("solicited_confirm_timeout")
+                    || s.starts_with("solicited_confirm_wait_new_request")
+                {
                     self.sol_pending = None;
-                } else if s.starts_with("unsolicited_confirmed") || (s.starts_with("unsolicited_confirm_timeout") && s.ends_with("false")) {
+                } else if s.starts_with("unsolicited_confirmed")
+                    || (s.starts_with("unsolicited_confirm_timeout") && s.ends_with("false"))
+                {
                     self.unsol_pending = false;
                 }
             }
         }
 
         let mut violation = None;
-        let sent = if step.link_up { step.sent.clone() } else { None };
+        let sent = if step.link_up {
+            step.sent.clone()
+        } else {
+            None
+        };
         let is_repeat = matches!(step.op, Op::Repeat);
-        let is_confirm = sent.as_ref().map(|s| s.bytes.len() >= 2 && s.bytes[1] == refapp::FUNC_CONFIRM).unwrap_or(false);
-        let addressed = sent.as_ref().map(|s| s.dest == self.own || s.dest >= 0xFFFD).unwrap_or(false);
+        let is_confirm = sent
+            .as_ref()
+            .map(|s| s.bytes.len() >= 2 && s.bytes[1] == refapp::FUNC_CONFIRM)
+            .unwrap_or(false);
+        let addressed = sent
+            .as_ref()
+            .map(|s| s.dest == self.own || s.dest >= 0xFFFD)
+            .unwrap_or(false);
 
         let sol_replies: Vec<&Vec<u8>> = step
             .received
             .iter()
             .filter(|r| r.bytes.len() >= 2 && r.bytes[1] == refapp::FUNC_RESPONSE)
-            .filter(|r| sent.as_ref().map(|s| !s.bytes.is_empty() && r.bytes[0] & 0x0F == s.bytes[0] & 0x0F).unwrap_or(false))
+            .filter(|r| {
+                sent.as_ref()
+                    .map(|s| !s.bytes.is_empty() && r.bytes[0] & 0x0F == s.bytes[0] & 0x0F)
+                    .unwrap_or(false)
+            })
             .map(|r| &r.bytes)
             .collect();
-        let mutating: Vec<&Cb> = step.callbacks.iter().map(|c| &c.1).filter(|c| c.is_mutating()).collect();
+        let mutating: Vec<&Cb> = step
+            .callbacks
+            .iter()
+            .map(|c| &c.1)
+            .filter(|c| c.is_mutating())
+            .collect();
 
-        if let (true, Some(s), Some(last)) = (is_repeat && addressed, sent.as_ref(), self.last.clone()) {
-            if s.bytes == last.bytes && s.src == last.src && s.dest == last.dest && s.src == self.master {
+        if let (true, Some(s), Some(last)) =
+            (is_repeat && addressed, sent.as_ref(), self.last.clone())
+        {
+            if s.bytes == last.bytes
+                && s.src == last.src
+                && s.dest == last.dest
+                && s.src == self.master
+            {
                 // a genuine retransmission of the request processed last
                 let func = s.bytes[1];
                 let state = if self.sol_pending.is_some() {
@@ -351,8 +441,20 @@ impl Oracle for RepeatOracle {
                         verdict = 1;
                         violation = Some(Violation::new(
                             "C05/i duplicate-executed-again",
-                            format!("func={} state={} {}", func, ["idle", "sol-confirm-wait", "unsol-confirm-wait"][state], if s.dest >= 0xFFFD { "broadcast" } else { "unicast" }),
-                            format!("step {}: retransmitted function {} caused callbacks {:?}", step.op_index, func, mutating),
+                            format!(
+                                "func={} state={} {}",
+                                func,
+                                ["idle", "sol-confirm-wait", "unsol-confirm-wait"][state],
+                                if s.dest >= 0xFFFD {
+                                    "broadcast"
+                                } else {
+                                    "unicast"
+                                }
+                            ),
+                            format!(
+                                "step {}: retransmitted function {} caused callbacks {:?}",
+                                step.op_index, func, mutating
+                            ),
                         ));
                     }
                     // (ii) the reply is the reply first sent
@@ -361,7 +463,10 @@ impl Oracle for RepeatOracle {
                             (Some(orig), Some(echo)) => {
                                 if *echo != orig {
                                     verdict = 2;
-                                    let only_iin = orig.len() == echo.len() && orig.len() >= 4 && orig[..2] == echo[..2] && orig[4..] == echo[4..];
+                                    let only_iin = orig.len() == echo.len()
+                                        && orig.len() >= 4
+                                        && orig[..2] == echo[..2]
+                                        && orig[4..] == echo[4..];
                                     violation = Some(Violation::new(
                                         "C05/ii echo-differs-from-first-reply",
                                         format!("{} state={}", if only_iin { "echo-differs-only-in-iin" } else { "echo-differs" }, ["idle", "sol-confirm-wait", "unsol-confirm-wait"][state]),
@@ -380,7 +485,11 @@ impl Oracle for RepeatOracle {
                                 violation = Some(Violation::new(
                                     "C05/ii duplicate-answered-although-original-was-not",
                                     format!("func={}", func),
-                                    format!("step {}: retransmission answered with {}", step.op_index, crate::verif::io::hex(echo)),
+                                    format!(
+                                        "step {}: retransmission answered with {}",
+                                        step.op_index,
+                                        crate::verif::io::hex(echo)
+                                    ),
                                 ));
                             }
                             (Some(_), None) => {
@@ -443,8 +552,14 @@ impl Oracle for RepeatOracle {
         for rx in &step.received {
             if rx.bytes.len() >= 2 && rx.bytes[1] == refapp::FUNC_UNSOL_RESPONSE {
                 if let Some(prev) = &self.last_unsol {
-                    if prev[0] & 0x0F == rx.bytes[0] & 0x0F && *prev != rx.bytes && violation.is_none() {
-                        let only_iin = prev.len() == rx.bytes.len() && prev.len() >= 4 && prev[..2] == rx.bytes[..2] && prev[4..] == rx.bytes[4..];
+                    if prev[0] & 0x0F == rx.bytes[0] & 0x0F
+                        && *prev != rx.bytes
+                        && violation.is_none()
+                    {
+                        let only_iin = prev.len() == rx.bytes.len()
+                            && prev.len() >= 4
+                            && prev[..2] == rx.bytes[..2]
+                            && prev[4..] == rx.bytes[4..];
                         violation = Some(Violation::new(
                             "C05/iii unsolicited-retry-differs",
                             if only_iin { "differs-only-in-iin" } else { "differs" },
@@ -473,14 +588,24 @@ impl Oracle for RepeatOracle {
                         self.series_fragment_no += 1;
                     }
                 }
-                self.sol_pending = if con { Some(self.series_fragment_no.max(1)) } else { None };
+                self.sol_pending = if con {
+                    Some(self.series_fragment_no.max(1))
+                } else {
+                    None
+                };
             }
             self.transmitted.push(rx.bytes.clone());
         }
         // a matching confirm ends the waits (the next fragment, if any, was handled above)
         if let (Some(s), true) = (sent.as_ref(), is_confirm) {
             let uns = s.bytes[0] & 0x10 != 0;
-            if !uns && !step.received.iter().any(|r| r.bytes.len() >= 2 && r.bytes[1] == refapp::FUNC_RESPONSE && r.bytes[0] & 0x20 != 0) {
+            if !uns
+                && !step.received.iter().any(|r| {
+                    r.bytes.len() >= 2
+                        && r.bytes[1] == refapp::FUNC_RESPONSE
+                        && r.bytes[0] & 0x20 != 0
+                })
+            {
                 if step.callbacks.iter().any(|(_, c)| matches!(c, Cb::Info(x) if x.starts_with("solicited_confirm_received"))) {
                     self.sol_pending = None;
                 }
